@@ -1,6 +1,7 @@
 import LJT.Proofs.Bits
 import LJT.Proofs.SeqHuff
 import LJT.Model.T81Enc
+import LJT.Props.C03
 /-! # C04 - emitted streams conform to T.81; conforming streams decode to spec
 
 Theorems about the independent T.81 layer (Model/T81.lean reader, Model/T81Enc.lean writer,
@@ -58,6 +59,34 @@ theorem block_coder_inverse (tdc tac : Huff.Tbl) (cdc cac : Huff.CDerived) (ddc 
     (hac : ∀ v ∈ ac, v.natAbs < 32768) (bits rest : List Bool) (he : SeqHuff.encodeBlock cdc cac diff ac = some bits) :
     SeqHuff.decodeBlock ddc dac (bits ++ rest) = some (diff, ac, rest) :=
   LJT.SeqHuff.decodeBlock_encodeBlock tdc tac cdc cac ddc dac h1 h2 h3 h4 diff ac hlen hd hac bits rest he
+
+/-- **A restart interval of a first-pass AC scan, from its bytes**: the bytes the encoder model
+writes for the interval (`ProgHuff.acScanBytes`: events -> code bits -> 1-padding -> byte stuffing),
+read back the way the reader does (unstuff, unpack, block procedure `n` times), give exactly the
+blocks, no pending end-of-band run, and leave fewer than eight 1-bits - which is what the reader
+then demands of the end of an interval -/
+theorem ac_first_interval_from_bytes (t : Huff.Tbl) (c : Huff.CDerived) (dd : Huff.DDerived)
+    (hc : Huff.mkCDerived false false t = some c) (hd : Huff.mkDDerived false false t = some dd)
+    (L : Nat) (hL : 1 ≤ L) (blocks : List (List Int)) (hwf : ProgAC.WF L blocks)
+    (henc : ∀ s, ProgAC.Ev.sym s ∈ ProgAC.firstEv 0 blocks → (Huff.encode c s).isSome = true) :
+    ∃ k, k < 8 ∧
+      ProgAC.firstDecBlocks (Huff.decode dd) L blocks.length 0
+        (intervalBits (segmentBytes (ProgAC.evBits (C03.codeOf c) (ProgAC.firstEv 0 blocks)))) =
+        .ok (blocks, 0, List.replicate k true) := by
+  obtain ⟨h1, h2⟩ := interval_framing_roundtrip (ProgAC.evBits (C03.codeOf c) (ProgAC.firstEv 0 blocks))
+  exact ⟨_, h2, by rw [h1]; exact C03.ac_first_scan_roundtrip t c dd hc hd L hL blocks hwf henc _⟩
+
+/-- the same for a refinement scan -/
+theorem ac_refine_interval_from_bytes (t : Huff.Tbl) (c : Huff.CDerived) (dd : Huff.DDerived)
+    (hc : Huff.mkCDerived false false t = some c) (hd : Huff.mkDDerived false false t = some dd)
+    (p : Int) (hp : 0 < p) (L : Nat) (hL : 1 ≤ L) (blocks : List (List (Nat × Bool))) (hwf : ∀ b ∈ blocks, b.length = L)
+    (henc : ∀ s, ProgAC.Ev.sym s ∈ ProgAC.refEv 0 [] blocks → (Huff.encode c s).isSome = true) :
+    ∃ k, k < 8 ∧
+      ProgAC.refDecBlocks (Huff.decode dd) p (blocks.map (ProgAC.prevs p)) 0
+        (intervalBits (segmentBytes (ProgAC.evBits (C03.codeOf c) (ProgAC.refEv 0 [] blocks)))) =
+        .ok (blocks.map (ProgAC.news p), 0, List.replicate k true) := by
+  obtain ⟨h1, h2⟩ := interval_framing_roundtrip (ProgAC.evBits (C03.codeOf c) (ProgAC.refEv 0 [] blocks))
+  exact ⟨_, h2, by rw [h1]; exact C03.ac_refine_scan_roundtrip t c dd hc hd p hp L hL blocks hwf henc _⟩
 
 /-- non-vacuity: a stuffed 0xFF and an unstuffed byte -/
 example : stuff [0xFF, 0x12] = [0xFF, 0x00, 0x12] ∧ intervalBits (segmentBytes [true, false, true]) = [true, false, true, true, true, true, true, true] := by
